@@ -210,6 +210,33 @@ theorem ctxOk_not_alone (p : Params K) (h : Nat) (ctx : Ctx K V) (hc : CtxOk p h
   · have := hc.right_same h'
     cases hr : ctx.right <;> simp_all
 
+theorem leafReport_some (sepAbove erasedLast : Bool) (k : K) :
+    ∃ u, leafReport sepAbove erasedLast (some k) = some u := by
+  unfold leafReport
+  cases erasedLast <;> cases sepAbove <;> exact ⟨_, rfl⟩
+
+/-- the leaf's underflow decision (non-root) -/
+theorem finishLeaf_nonroot (p : Params K) (es' : List (K × V)) (ctx : Ctx K V) (hc : CtxOk p 0 ctx)
+    (setSep lastUp : Option K) :
+    ∃ out, finishLeaf p es' ctx setSep lastUp = some out ∧ out.rootDrop = false ∧ out.node = .leaf es' ∧
+      out.setSep = setSep ∧ out.lastUp = lastUp ∧ out.leafFree = 0 ∧ out.innerFree = 0 ∧
+      (p.leafMin ≤ es'.length → out.fix = .none) ∧
+      (es'.length < p.leafMin →
+        Applicable p.leafMin (ctx.left.map BNode.slotuse) (ctx.right.map BNode.slotuse)
+          (ctx.lp = ctx.par) (ctx.rp = ctx.par) out.fix) := by
+  have hpar : ctx.par.isNone = false := by
+    have := hc.par_some
+    cases hp : ctx.par <;> simp_all
+  unfold finishLeaf
+  simp only [hpar, Bool.false_and, Bool.not_false, Bool.and_true]
+  by_cases hu : es'.length < p.leafMin
+  · simp only [hu, decide_true, ctxOk_not_alone p 0 ctx hc, if_true]
+    obtain ⟨f, hf, hap⟩ := ctxOk_decide p 0 ctx hc p.leafMin
+    rw [hf]
+    exact ⟨_, rfl, rfl, rfl, rfl, rfl, rfl, rfl, by intro h'; omega, fun _ => hap⟩
+  · simp only [hu, decide_false]
+    exact ⟨_, rfl, rfl, rfl, rfl, rfl, rfl, rfl, fun _ => rfl, fun h' => h'.elim⟩
+
 /-- the leaf part of a frame -/
 theorem eraseInLeaf_ok (p : Params K) (pv : p.Valid) (tg : Target K) (es : List (K × V)) (slot : Nat)
     (ctx : Ctx K V) (hs : Shape p 0 (BNode.leaf es)) (hc : CtxOk p 0 ctx) (hslot : slot < es.length)
@@ -220,38 +247,18 @@ theorem eraseInLeaf_ok (p : Params K) (pv : p.Valid) (tg : Target K) (es : List 
   simp only [Shape] at hs
   have hlen : (es.eraseIdx slot).length = es.length - 1 := List.length_eraseIdx_of_lt hslot
   obtain ⟨e, he⟩ := getLast?_isSome_of_length_pos (es.eraseIdx slot) (by omega)
-  have hpar : ctx.par.isNone = false := by
-    have := hc.par_some
-    cases hp : ctx.par <;> simp_all
   unfold eraseInLeaf
-  simp only [he, Option.map_some, hpar, Bool.false_and, Bool.not_false, Bool.and_true]
-  -- the lastkey bookkeeping never fails
-  have hupd : ∃ u, (if slot = (es.eraseIdx slot).length then
-      if ctx.sepAbove = true then some (some e.1, (none : Option K)) else some (none, some e.1)
-      else some (none, none)) = some u := by
-    split
-    · split <;> exact ⟨_, rfl⟩
-    · exact ⟨_, rfl⟩
-  obtain ⟨⟨u1, u2⟩, hu⟩ := hupd
+  simp only [he, Option.map_some]
+  obtain ⟨⟨u1, u2⟩, hu⟩ := leafReport_some ctx.sepAbove (slot == (es.eraseIdx slot).length) e.1
   rw [hu]
   simp only
-  have hbase : ∀ (f : Fix), ShapeTop p (p.leafMin - 1) (p.innerMin - 1) 0 (BNode.leaf (es.eraseIdx slot)) := by
-    intro _; simp only [ShapeTop]; omega
-  by_cases hunder : (es.eraseIdx slot).length < p.leafMin
-  · simp only [hunder, decide_true, ctxOk_not_alone p 0 ctx hc, if_true]
-    obtain ⟨f, hf, hap⟩ := ctxOk_decide p 0 ctx hc p.leafMin
-    rw [hf]
-    refine ⟨_, rfl, ⟨rfl, hbase f, ?_, ?_, ⟨slot, by simpa [flatten] using hslot, by simp [flatten], hhit⟩, ?_, ?_⟩⟩
-    · intro h'; simp only [minOf, BNode.slotuse] at h'; simp at h'; omega
-    · intro _; simpa [minOf] using hap
-    · simp [leafCount]
-    · simp [innerCount]
-  · simp only [hunder, decide_false]
-    refine ⟨_, rfl, ⟨rfl, hbase .none, ?_, ?_, ⟨slot, by simpa [flatten] using hslot, by simp [flatten], hhit⟩, ?_, ?_⟩⟩
-    · intro _; rfl
-    · intro h'; simp only [minOf, BNode.slotuse] at h'; simp at h'; omega
-    · simp [leafCount]
-    · simp [innerCount]
+  obtain ⟨out, ho, h1, h2, _, _, h5, h6, h7, h8⟩ := finishLeaf_nonroot p (es.eraseIdx slot) ctx hc u1 u2
+  refine ⟨out, ho, ⟨h1, ?_, ?_, ?_, ⟨slot, by simpa [flatten] using hslot, by rw [h2]; simp [flatten], hhit⟩, ?_, ?_⟩⟩
+  · rw [h2]; simp only [ShapeTop]; omega
+  · intro h'; rw [h2] at h'; simp only [minOf, BNode.slotuse, if_true] at h'; exact h7 h'
+  · intro h'; rw [h2] at h'; simp only [minOf, BNode.slotuse, if_true] at h' ⊢; exact h8 h'
+  · rw [h2, h5]; simp [leafCount]
+  · rw [h2, h6]; simp [innerCount]
 
 /-! ### what the parent does with the child's result -/
 
